@@ -161,8 +161,7 @@ func (w *webTransport) send(packets []*packet.Packet) {
 					}
 					return
 				}
-				return
-
+				continue
 			}
 		}
 
